@@ -55,15 +55,15 @@ theorem C02_refusal_core (s : State) (idk : Option Nat) (size : Nat) (h : String
     then its id was the current reservation's, the runtime was `Running`, and the reply had not been
     sent; afterwards the reply is marked sent, so it cannot be accepted again. -/
 theorem C02_accept_only_current (s : State) (idk : Option Nat) (size : Nat) (h : String)
-    (hacc : (rtResponse s idk size h false).out = s.out ++ ["rt.response=202"] ∨
-            (rtResponse s idk size h false).out = s.out ++ ["rt.response=413,RequestEntityTooLarge"]) :
+    (hacc : (rtResponse s idk size h false).out = s.out ++ [.line "rt.response=202"] ∨
+            (rtResponse s idk size h false).out = s.out ++ [.line "rt.response=413,RequestEntityTooLarge"]) :
     idk = currentId s ∧ idk.isSome = true ∧ s.rt = some .running := by
   -- a refusal line differs from both acceptance lines
   have hrefuse : ∀ (a : String), (a = "400,InvalidRequestID" ∨ a = "403,InvalidStateTransition" ∨ a = "neterr") →
       rtResponse s idk size h false = reply s "rt" "response" a → False := by
     intro a ha he
     rw [he] at hacc
-    simp only [reply, State.emit, List.append_cancel_left_eq, List.cons.injEq, and_true] at hacc
+    simp only [reply, State.emit, List.append_cancel_left_eq, List.cons.injEq, and_true, Out.line.injEq] at hacc
     rcases ha with rfl | rfl | rfl <;> rcases hacc with h' | h' <;> exact absurd h' (by decide)
   cases hk : idk with
   | none =>
@@ -99,7 +99,7 @@ unchanged" is therefore false of model and code; the counterexample below is the
 -/
 theorem C02_refusal_inert_counterexample :
     ∃ s : State, ∃ k, currentId s = some k ∧ s.rt = some .running ∧
-      (rtResponse s (some k) 1 "h" false).out = s.out ++ ["rt.response=400,InvalidRequestID"] ∧
+      (rtResponse s (some k) 1 "h" false).out = s.out ++ [.line "rt.response=400,InvalidRequestID"] ∧
       (rtResponse s (some k) 1 "h" false).rt ≠ s.rt := by
   refine ⟨{ rt := some .running, resv := some { k := 1, caller := 0, replySent := true, replyStream := true } }, 1, rfl, rfl, ?_, ?_⟩ <;> decide
 
